@@ -145,6 +145,20 @@ func checkC18(c *Ctx) {
 		reportFindings(c, p, "C18.pool", nil, hits, "")
 		c.Ob("C18.pool", "-", "-", "pool-gets-analysed", "-", sites > 0, "no sync.Pool.Get site found")
 	}
+	// ---- scratch buffers kept across calls
+	c.Rule("C18.stalecap", "STALE-CAPACITY: no library function extends a slice into its spare capacity (s[:n] with n taken from or compared with cap(s)) without clearing the exposed elements: a buffer kept in a struct or a pool and resliced to the size of the next job still holds the values of the previous one, and code written for a fresh make() relies on zeros (cap() is not used anywhere on the reference tree)", 1000)
+	{
+		n := 0
+		var hits []Finding
+		for _, fn := range libFuncs(p) {
+			k, h := staleCapacityReslices(p, fn)
+			n += k
+			hits = append(hits, h...)
+		}
+		c.Instance("C18.stalecap", n)
+		reportFindings(c, p, "C18.stalecap", nil, hits, "")
+		c.Ob("C18.stalecap", "-", "-", "reslices-scanned", "-", n > 0, "no reslice found in the library")
+	}
 	// ---- package-level caches are read-only for their users
 	c.Rule("C18.cache", "L-CACHE: an object obtained from a package-level cache (sync.Map global: Load, or the getter functions that return its values) is never written — by a store, or by handing it, or a local now holding it, to a callee whose mod summary writes that argument's elements — and never returned by an exported function: cached objects are shared by all callers and goroutines", 8)
 	{
